@@ -2,6 +2,7 @@ package rules
 
 import (
 	"fmt"
+	"go/token"
 	"strings"
 
 	"golang.org/x/tools/go/ssa"
@@ -156,6 +157,38 @@ func runC47(c *core.Ctx) {
 		if n == 0 {
 			c.Fail("C47/duplicate-test-canonical", "accountsParser.checkForDuplicates", fn.Pos(), "no duplicate test leading to an error found")
 		}
+		// nowhere in the duplicate detection (including comparators of a sort) may the raw textual address decide anything
+		rawCmp := ""
+		for _, f := range core.WithAnon(fn) {
+			core.Instrs(f, func(in ssa.Instruction) {
+				b, ok := in.(*ssa.BinOp)
+				if !ok {
+					return
+				}
+				switch b.Op {
+				case token.EQL, token.NEQ, token.LSS, token.GTR, token.LEQ, token.GEQ:
+				default:
+					return
+				}
+				for _, side := range []ssa.Value{b.X, b.Y} {
+					if _, fl := core.FieldLoad(side); fl != nil && fl.Name() == "Address" {
+						rawCmp = c.P.Pos(b.Pos())
+					}
+				}
+			})
+		}
+		c.Check(rawCmp == "", "C47/duplicate-test-canonical", "accountsParser.checkForDuplicates/no-textual-ordering", fn.Pos(), "no comparison on the textual Address field",
+			"the textual Address field is compared/ordered at "+rawCmp+": entries that denote the same account in different letter case are not brought together")
+		// all pairs: the test sits in two nested loops over the entries (or everything is compared through canonical keys above)
+		nested := false
+		for _, l1 := range core.Loops(fn) {
+			for _, l2 := range core.Loops(fn) {
+				if l1 != l2 && l1.Body[l2.Header] {
+					nested = true
+				}
+			}
+		}
+		c.Check(nested, "C47/duplicate-test-canonical", "accountsParser.checkForDuplicates/all-pairs", fn.Pos(), "every pair of entries is compared (nested loops)", "the duplicate test no longer compares every pair of entries")
 	}
 	c.Floor("C47/process-passes-all-checks", 6)
 }
